@@ -12,7 +12,9 @@ CONSTANTS
   Matchers = {1, 2}
   BufSize = 0
   Kind <- MCKind
-  Sel <- MCSel
+  Class <- MCClass
+  Wants <- MCWants
+  MTypes = {"matcher", "leaf"}
 SPECIFICATION SFairSpec
 INVARIANTS TypeOK CallbackSound CallbackComplete ProcessedAll ScanComplete
 PROPERTIES ScanTerminates
